@@ -406,6 +406,33 @@ class ModesMon(Monitor):
 
     def on_modes_fit(self, inc, how, u, weights, labels, ms):
         self.last_fit = dict(how=how, labels=None if labels is None else np.asarray(labels).copy(), ms=ms, n=len(u))
+        # "that mode was fitted from the particles of that same cluster": any location estimate computed from a
+        # cluster's points (median, weighted mean, EM fixed point) lies inside their bounding box - exact necessary condition
+        u = np.asarray(u)
+        w = inc.world
+        s = _sampler(inc)
+        keys = dict(cluster_every=s._core.config.cluster_every, clustering=bool(s._core.config.clustering))
+        if how == "from_particles" and labels is not None:
+            labels = np.asarray(labels)
+            uniq = np.unique(labels)
+            if len(uniq) == ms.K:
+                for j, lab in enumerate(uniq.tolist()):
+                    pts = u[labels == lab]
+                    lo, hi = pts.min(axis=0), pts.max(axis=0)
+                    tol = 1e-9 * (1.0 + np.abs(hi - lo))
+                    if np.any(ms.means[j] < lo - tol) or np.any(ms.means[j] > hi + tol):
+                        if len(uniq) > 1:
+                            w.probe("modes.checked_fit_K_ge_2")
+                        w.violation(self.prop, "mode.not_from_own_cluster", f"mode {j} (label {lab}, {len(pts)} training points) has its location {np.round(ms.means[j], 4).tolist()} outside the bounding box "
+                                    f"[{np.round(lo, 4).tolist()}, {np.round(hi, 4).tolist()}] of the training points carrying that label: it was not fitted from that cluster's particles (K={ms.K})", **keys)
+                        break
+                if len(uniq) > 1:
+                    w.probe("modes.fit_checked_K_ge_2")
+        elif how == "from_global":
+            lo, hi = u.min(axis=0), u.max(axis=0)
+            tol = 1e-9 * (1.0 + np.abs(hi - lo))
+            if np.any(ms.means[0] < lo - tol) or np.any(ms.means[0] > hi + tol):
+                w.violation(self.prop, "mode.not_from_own_cluster", "global mode location outside the bounding box of the training pool", **keys)
 
     def on_mcmc_args(self, inc, kw):
         w = inc.world
